@@ -34,7 +34,7 @@ impl Prop for C19 {
         "fault_enumeration"
     }
     fn rule(&self) -> String {
-        "cases = a generated conversation (C03-style: writer programs with explicit finishes and drops, prepared statements, QUIT- or EOF-terminated, generated read/write chunking) run fault-free to obtain its operation trace (N transport operations, B inbound bytes), then re-run with EVERY fault point: end-of-stream after k bytes for k = 0..B; a one-off error at operation k, a persistent error from operation k, write() -> Ok(0) at operation k for k = 0..N-1, and a read interrupted with ErrorKind::Interrupted at every read operation (which the library may either report or retry transparently, but the callback log must stay a prefix of the fault-free log); plus a tagged shim error at every callback index; enumerated conversations whose response contains a packet of 2^24-1 bytes or more (written explicitly and from a destructor). Oracle: EOF => Ok iff k is a command boundary at or after the end of the handshake exchange (or QUIT was already consumed), else Err; transport fault => Err (never Ok, never a panic), the callback log is a prefix of the fault-free log and no callback starts after the fault; shim error => returned unchanged, no later callback. evaluations counts conversations; faulted_runs counts the enumerated re-runs. Non-trivial = the conversation has >= 3 commands and >= 1 resultset program.".into()
+        "cases = a generated conversation (C03-style: writer programs with explicit finishes and drops, prepared statements, QUIT- or EOF-terminated, generated read/write chunking) run fault-free to obtain its operation trace (N transport operations, B inbound bytes), then re-run with EVERY fault point: end-of-stream after k bytes for k = 0..B; a one-off error at operation k and a persistent error from operation k (each with io::ErrorKind ConnectionReset, UnexpectedEof and one of Other / BrokenPipe / TimedOut), write() -> Ok(0) at operation k for k = 0..N-1, and a read interrupted with ErrorKind::Interrupted at every read operation (which the library may either report or retry transparently, but the callback log must stay a prefix of the fault-free log); plus a tagged shim error at every callback index; enumerated conversations whose response contains a packet of 2^24-1 bytes or more (written explicitly and from a destructor). Oracle: EOF => Ok iff k is a command boundary at or after the end of the handshake exchange (or QUIT was already consumed), else Err; transport fault => Err (never Ok, never a panic), the callback log is a prefix of the fault-free log and no callback starts after the fault; shim error => returned unchanged, no later callback. evaluations counts conversations; faulted_runs counts the enumerated re-runs. Non-trivial = the conversation has >= 3 commands and >= 1 resultset program.".into()
     }
     fn exhaustive_note(&self, _tier: Tier) -> Option<String> {
         Some("fault points of each generated conversation (all k for EOF / one-off / persistent / zero-write faults, all callback indexes for shim errors)".into())
@@ -162,22 +162,38 @@ impl Prop for C19 {
             k += stride;
         }
 
-        // 2. transport faults at every operation
-        for kind in 0..3 {
+        // 2. transport faults at every operation (kinds 3.. repeat the one-off and persistent faults
+        // with other io::ErrorKinds: UnexpectedEof, Other, BrokenPipe, TimedOut)
+        for kind in 0..7 {
             let mut k = 0;
             while k < n_ops {
                 let mut cc = c.clone();
                 cc.fault = match kind {
-                    0 => Fault::ErrOnce(k),
-                    1 => Fault::ErrFrom(k),
+                    0 | 3 | 5 => Fault::ErrOnce(k),
+                    1 | 4 | 6 => Fault::ErrFrom(k),
                     _ => Fault::WriteZero(k),
                 };
+                cc.fault_kind = match kind {
+                    3 | 4 => 1,                       // UnexpectedEof
+                    5 => 2 + (k % 3) as u8,           // Other / BrokenPipe / TimedOut
+                    6 => 2 + ((k + 1) % 3) as u8,
+                    _ => 0,
+                };
+                if kind >= 5 && base.out.len() > (1 << 24) {
+                    // the enumerated 16 MiB conversations are expensive: the first five kinds suffice there
+                    k += stride;
+                    continue;
+                }
                 let o = run_with(&cc, None, false);
                 runs += 1;
                 let what = match kind {
-                    0 => "one-off error",
-                    1 => "persistent error",
-                    _ => "write()->Ok(0)/error",
+                    0 => "one-off error (ConnectionReset)",
+                    1 => "persistent error (ConnectionReset)",
+                    2 => "write()->Ok(0)/error",
+                    3 => "one-off error (UnexpectedEof)",
+                    4 => "persistent error (UnexpectedEof)",
+                    5 => "one-off error (Other/BrokenPipe/TimedOut)",
+                    _ => "persistent error (Other/BrokenPipe/TimedOut)",
                 };
                 let opk = base.ops.get(k).map(|op| format!("{:?}", op.kind)).unwrap_or_default();
                 match &o.result {
